@@ -80,6 +80,11 @@ theorem step_put_effect {ell : Bool} {val : Json} {parts : List Bytes} {node nod
     · simp at hop
     · simp at hop; obtain ⟨rfl, _⟩ := hop
       rw [sget_single_obj, lookup_setKey_same]
+  | @specialArr part idxStr xs i arr arr' o ha h0 hlt hx hop =>
+    obtain ⟨j, hj, hj0, hj1, rfl⟩ := arrayOp_put_ok hop
+    rw [sget_in_arr_set ha h0 hlt, sget_arr_cons, hj]
+    have : j.toNat ≤ arr.length := by omega
+    simp [hj0, List.getElem?_insertIdx_self, this, sget]
   | create _ _ _ ih => rw [sget_in_set]; exact ih
   | inObj hl _ _ _ ih => rw [sget_in_replaced (by simp [hl])]; exact ih
   | inArr ha h0 h1 _ _ ih => rw [sget_in_arr_set ha h0 h1]; exact ih
@@ -98,6 +103,11 @@ theorem step_patch_effect {ell : Bool} {val : Json} {parts : List Bytes} {node n
     · simp at hop; obtain ⟨rfl, _⟩ := hop
       rw [sget_single_obj, lookup_setKey_same]
     · simp at hop
+  | @specialArr part idxStr xs i arr arr' o ha h0 hlt hx hop =>
+    obtain ⟨j, hj, hj0, hj1, rfl⟩ := arrayOp_patch_ok' hop
+    rw [sget_in_arr_set ha h0 hlt, sget_arr_cons, hj]
+    have : j.toNat < arr.length := by omega
+    simp [hj0, List.getElem?_set_self this, sget]
   | create _ hm _ _ => cases hm
   | inObj hl _ _ _ ih => rw [sget_in_replaced (by simp [hl])]; exact ih
   | inArr ha h0 h1 _ _ ih => rw [sget_in_arr_set ha h0 h1]; exact ih
@@ -126,6 +136,11 @@ theorem step_delete_effect {ell : Bool} {val : Json} {parts : List Bytes} {node 
       refine Or.inr ⟨by rw [sget_single_obj]; exact hc, ?_⟩
       rw [sget_single_obj, lookup_eraseKey_same]
     · simp at hop
+  | @specialArr part idxStr xs i arr arr' o ha h0 hlt hx hop =>
+    obtain ⟨j, hj, hj0, hj1, rfl⟩ := arrayOp_delete_ok hop
+    refine Or.inl ⟨arr, idxStr, j, ?_, by simp, hj, hj0, hj1, ?_⟩
+    · simp only [List.dropLast]; rw [sget_in_arr ha h0 hx]; simp [sget]
+    · simp only [List.dropLast]; rw [sget_in_arr_set ha h0 hlt]; simp [sget]
   | create _ hm _ _ => cases hm
   | @inObj part a b kvs c c' o hl _ _ _ ih =>
     have hs : (lookup part kvs).isSome := by simp [hl]
@@ -183,6 +198,11 @@ theorem step_post_effect {ell : Bool} {val : Json} {parts : List Bytes} {node no
       refine Or.inr (Or.inr ⟨?_, ?_⟩)
       · intro arr; rw [sget_single_obj]; exact fun h => hna arr h
       · rw [sget_single_obj, lookup_setKey_same]
+  | @specialArr part idxStr xs i arr arr' o ha h0 hlt hx hop =>
+    obtain ⟨app, happ, rfl⟩ := arrayOp_post_ok hop
+    refine Or.inl ⟨arr, app, happ, ?_, ?_⟩
+    · simp only [List.dropLast]; rw [sget_in_arr ha h0 hx]; simp [sget]
+    · simp only [List.dropLast]; rw [sget_in_arr_set ha h0 hlt]; simp [sget]
   | create _ hm _ _ => cases hm
   | @inObj part a b kvs c c' o hl _ _ _ ih =>
     have hs : (lookup part kvs).isSome := by simp [hl]
@@ -220,6 +240,14 @@ theorem step_get_sound {ell : Bool} {val : Json} {parts : List Bytes} {node node
     refine ⟨_, rfl, ?_⟩
     rw [sget_single_obj]
     cases lookup part kvs <;> simp [encodeOf]
+  | @specialArr part idxStr xs i arr arr' o ha h0 hlt hx hop =>
+    have h2 : (arrayOp .get ell val idxStr arr).2 = .ok o := by rw [hop]
+    cases o with
+    | none => simp only [arrayOp] at h2; (repeat' split at h2) <;> simp_all
+    | some x =>
+      obtain ⟨j, hj, hj0, hj1, hjx⟩ := arrayOp_get_ok h2
+      refine ⟨x, rfl, Or.inl ?_⟩
+      rw [sget_in_arr ha h0 hx, sget_in_arr hj hj0 hjx]; simp [sget]
   | create _ hm _ _ => cases hm
   | inObj hl _ _ _ ih =>
     obtain ⟨v, h1, h2⟩ := ih
@@ -228,16 +256,15 @@ theorem step_get_sound {ell : Bool} {val : Json} {parts : List Bytes} {node node
     obtain ⟨v, h1, h2⟩ := ih
     exact ⟨v, h1, by rw [sget_in_arr ha h0 hx]; exact h2⟩
 
-/-- completeness: a value the path names is what GET writes, unless the path ends on an
-    element of an array that sits directly in an array -/
-theorem trav_get_complete (ell : Bool) (val : Json) : ∀ (parts : List Bytes) (node : Json) (b : Bool) (v : Json),
-    parts ≠ [] → sget parts node = some v → nestedEnd parts node b = false → Guard parts node b →
+/-- completeness: a value the path names is what GET writes -/
+theorem trav_get_complete (ell : Bool) (val : Json) : ∀ (parts : List Bytes) (node : Json) (v : Json),
+    parts ≠ [] → sget parts node = some v → Guard parts node →
     (trav .get ell val parts node).2 = .ok (some v) := by
   intro parts
   induction parts with
-  | nil => intro node b v h; exact absurd rfl h
+  | nil => intro node v h; exact absurd rfl h
   | cons part rest ih =>
-    intro node b v _ hs hne hg
+    intro node v _ hs hg
     cases node with
     | obj kvs =>
       rcases trav_obj_cases .get ell val part rest kvs with ⟨arr, idxStr, rfl, hl, heq⟩ | ⟨rfl, heq⟩ | ⟨a', b', rfl, hns, heq⟩
@@ -253,8 +280,7 @@ theorem trav_get_complete (ell : Bool) (val : Json) : ∀ (parts : List Bytes) (
             | none => simp [hx] at hs
             | some c =>
               simp [hx, sget] at hs; subst hs
-              have hlt : i.toNat < arr.length := by
-                have := List.getElem?_eq_some_iff.1 hx; exact this.1
+              have hlt : i.toNat < arr.length := (List.getElem?_eq_some_iff.1 hx).1
               exact arrayOp_get_at ha h0 (by omega) hx
           · simp [h0] at hs
       · rw [heq]
@@ -265,41 +291,48 @@ theorem trav_get_complete (ell : Bool) (val : Json) : ∀ (parts : List Bytes) (
         | none => rw [sget_obj_cons, hl] at hs; cases hs
         | some c =>
           rw [sget_in_obj hl] at hs
-          rw [nestedEnd_obj_cons, hl] at hne
           simp only [inObj]
-          refine ih c false v (by simp) hs hne ?_
-          intro xs hx _
+          refine ih c v (by simp) hs ?_
+          intro xs hx
           have := hns xs (hx ▸ hl)
           cases b' with
           | nil => exact absurd rfl this
           | cons _ _ => simp
     | arr xs =>
-      rw [trav_arr]
       rw [sget_arr_cons] at hs
-      cases ha : atoi part with
-      | none => simp [ha] at hs
-      | some i =>
-        simp only [ha] at hs ⊢
+      rcases trav_arr_cases .get ell val part rest xs with ⟨hn, heq⟩ | ⟨i, ha, hoob, heq⟩ | ⟨i, c, ha, h0, hlt, hx, ⟨arr, idxStr, rfl, rfl, heq⟩ | ⟨hns, heq⟩⟩
+      · simp [hn] at hs
+      · simp only [ha] at hs
         by_cases h0 : 0 ≤ i
-        · simp only [h0, if_true] at hs
-          cases hx : xs[i.toNat]? with
-          | none => simp [hx] at hs
-          | some c =>
-            simp only [hx] at hs
-            have hlt : i.toNat < xs.length := (List.getElem?_eq_some_iff.1 hx).1
-            have hoob : ¬ (i < 0 ∨ i ≥ xs.length) := by omega
-            rw [if_neg hoob]
-            simp only [inArr]
-            cases rest with
-            | nil =>
-              rw [nestedEnd_arr_single] at hne
-              have := hg xs rfl hne
-              simp at this
-            | cons r0 r' =>
-              rw [nestedEnd_arr_cons2] at hne
-              simp only [ha, h0, if_true, hx] at hne
-              exact ih c true v (by simp) hs hne (by intro _ _ h; cases h)
+        · have : xs[i.toNat]? = none := by simp; omega
+          simp [h0, this] at hs
         · simp [h0] at hs
+      · rw [heq]; simp only [inArrayElem]
+        simp only [ha, h0, if_true, hx, sget_arr_cons] at hs
+        cases hj : atoi idxStr with
+        | none => simp [hj] at hs
+        | some j =>
+          simp only [hj] at hs
+          by_cases hj0 : 0 ≤ j
+          · simp only [hj0, if_true] at hs
+            cases hjx : arr[j.toNat]? with
+            | none => simp [hjx] at hs
+            | some y =>
+              simp [hjx, sget] at hs; subst hs
+              have : j.toNat < arr.length := (List.getElem?_eq_some_iff.1 hjx).1
+              exact arrayOp_get_at hj hj0 (by omega) hjx
+          · simp [hj0] at hs
+      · rw [heq]; simp only [inArr]
+        simp only [ha, h0, if_true, hx] at hs
+        have h2 := hg xs rfl
+        cases rest with
+        | nil => simp at h2
+        | cons r0 r' =>
+          refine ih c v (by simp) hs ?_
+          intro ys hy
+          cases r' with
+          | nil => exact absurd rfl (hns ys r0 hy)
+          | cons _ _ => simp
     | null => simp [sget] at hs
     | bool _ => simp [sget] at hs
     | num _ => simp [sget] at hs
